@@ -34,6 +34,7 @@ using namespace llvm;
 using std::string;
 
 static bool optUB = false, optFrozen = false;
+static int optDyadic = -1;     // >= 0: exact-dyadic lowering, float = int32 holding value * 2^K (DESIGN 1.5)
 static const DataLayout *DL;
 static std::ostringstream out;
 static std::set<string> libcFns = {
@@ -94,8 +95,8 @@ static void registerType(Type *t) {
 static string ctype(Type *t) {
   if (t->isVoidTy()) return "void";
   if (t->isIntegerTy()) { if (t->getIntegerBitWidth() > 128) die("int too wide"); return uintTy(t->getIntegerBitWidth()); }
-  if (t->isFloatTy()) return "float";
-  if (t->isDoubleTy()) return "double";
+  if (t->isFloatTy()) return optDyadic >= 0 ? "ll_fx" : "float";
+  if (t->isDoubleTy()) { if (optDyadic >= 0) return "ll_fx_double_unsupported"; return "double"; }
   if (auto *pt = dyn_cast<PointerType>(t)) {
     Type *e = pt->getPointerElementType();
     if (e->isVoidTy()) return "uint8_t*";
@@ -189,6 +190,16 @@ static string intLit(const APInt &v) {
 }
 
 static string fpLit(const APFloat &f, bool isFloat) {
+  if (optDyadic >= 0) {
+    if (f.isNaN() || f.isInfinity()) return "LL_FX_INEXACT(0)";
+    double d = isFloat ? (double)f.convertToFloat() : f.convertToDouble();
+    double scaled = d * (double)(1ll << optDyadic);
+    if (scaled != (double)(long long)scaled || scaled > 2147483647.0 || scaled < -2147483648.0) {
+      long long r = (long long)scaled; if (r > 2147483647ll) r = 2147483647ll; if (r < -2147483647ll) r = -2147483647ll;
+      return "LL_FX_INEXACT(" + std::to_string(r) + ")";       // constant not on the grid: an obligation if the value is ever used
+    }
+    return "((ll_fx)" + std::to_string((long long)scaled) + ")";
+  }
   if (f.isNaN()) return isFloat ? "__builtin_nanf(\"\")" : "__builtin_nan(\"\")";
   if (f.isInfinity()) return string(f.isNegative() ? "(-" : "(") + (isFloat ? "__builtin_inff())" : "__builtin_inf())");
   SmallString<64> s;
@@ -435,6 +446,10 @@ static void emitCall(const CallBase *ci) {
     if (n.startswith("llvm.smax")) { b << "  " << lhs << "(" << sx(arg(0),w) << " > " << sx(arg(1),w) << " ? " << arg(0) << " : " << arg(1) << ");\n"; return; }
     if (n.startswith("llvm.smin")) { b << "  " << lhs << "(" << sx(arg(0),w) << " < " << sx(arg(1),w) << " ? " << arg(0) << " : " << arg(1) << ");\n"; return; }
     if (n.startswith("llvm.abs")) { b << "  " << lhs << mask("(" + sx(arg(0),w) + " < 0 ? (" + opTy(w) + ")0 - (" + opTy(w) + ")" + arg(0) + " : (" + opTy(w) + ")" + arg(0) + ")", w) << ";\n"; return; }
+    if (optDyadic >= 0 && n.startswith("llvm.fabs")) { b << "  " << lhs << "((int32_t)" << arg(0) << " < 0 ? ll_fx_sub((ll_fx)0, " << arg(0) << ") : " << arg(0) << ");\n"; return; }
+    if (optDyadic >= 0 && (n.startswith("llvm.maxnum") || n.startswith("llvm.minnum"))) { b << "  " << lhs << "((int32_t)" << arg(0) << (n.startswith("llvm.maxnum") ? " > " : " < ") << "(int32_t)" << arg(1) << " ? " << arg(0) << " : " << arg(1) << ");\n"; return; }
+    if (optDyadic >= 0 && n.startswith("llvm.fmuladd")) { b << "  " << lhs << "ll_fx_add(ll_fx_mul(" << arg(0) << ", " << arg(1) << "), " << arg(2) << ");\n"; return; }
+    if (optDyadic >= 0 && (n.startswith("llvm.floor") || n.startswith("llvm.sqrt"))) { b << "  LL_FX_UNSUPPORTED(\"floor/sqrt\"); " << lhs << "0;\n"; return; }
     if (n.startswith("llvm.fabs")) { b << "  " << lhs << (rt->isFloatTy() ? "LL_FABSF(" : "LL_FABS(") << arg(0) << ");\n"; return; }
     if (n.startswith("llvm.fmuladd")) { b << "  " << lhs << "(" << arg(0) << " * " << arg(1) << " + " << arg(2) << ");\n"; return; }
     if (n.startswith("llvm.bswap")) {
@@ -584,12 +599,12 @@ static void emitInst(const Instruction &I) {
       else b << lhs << mask("(" + sopTy(w) + ")" + sx(op(0), w) + " >> " + op(1), w) << ";\n";
       break;
     }
-    case Instruction::FAdd: b << lhs << op(0) << " + " << op(1) << ";\n"; break;
-    case Instruction::FSub: b << lhs << op(0) << " - " << op(1) << ";\n"; break;
-    case Instruction::FMul: b << lhs << op(0) << " * " << op(1) << ";\n"; break;
-    case Instruction::FDiv: b << lhs << op(0) << " / " << op(1) << ";\n"; break;
+    case Instruction::FAdd: if (optDyadic >= 0) { b << lhs << "ll_fx_add(" << op(0) << ", " << op(1) << ");\n"; break; } b << lhs << op(0) << " + " << op(1) << ";\n"; break;
+    case Instruction::FSub: if (optDyadic >= 0) { b << lhs << "ll_fx_sub(" << op(0) << ", " << op(1) << ");\n"; break; } b << lhs << op(0) << " - " << op(1) << ";\n"; break;
+    case Instruction::FMul: if (optDyadic >= 0) { b << lhs << "ll_fx_mul(" << op(0) << ", " << op(1) << ");\n"; break; } b << lhs << op(0) << " * " << op(1) << ";\n"; break;
+    case Instruction::FDiv: if (optDyadic >= 0) { b << lhs << "ll_fx_div(" << op(0) << ", " << op(1) << ");\n"; break; } b << lhs << op(0) << " / " << op(1) << ";\n"; break;
     case Instruction::FRem: b << lhs << (t->isFloatTy() ? "fmodf(" : "fmod(") << op(0) << ", " << op(1) << ");\n"; break;
-    case Instruction::FNeg: b << lhs << "-" << op(0) << ";\n"; break;
+    case Instruction::FNeg: if (optDyadic >= 0) { b << lhs << "ll_fx_sub((ll_fx)0, " << op(0) << ");\n"; break; } b << lhs << "-" << op(0) << ";\n"; break;
     case Instruction::ICmp: {
       auto *ic = cast<ICmpInst>(&I);
       Type *ot = ic->getOperand(0)->getType();
@@ -618,21 +633,33 @@ static void emitInst(const Instruction &I) {
     }
     case Instruction::FCmp: {
       auto *fc = cast<FCmpInst>(&I);
+      if (optDyadic >= 0) {        // no NaN on the grid: ordered and unordered predicates coincide
+        const char *o = 0; bool cst = false, cv = false;
+        switch (fc->getPredicate()) {
+          case FCmpInst::FCMP_OEQ: case FCmpInst::FCMP_UEQ: o = "=="; break; case FCmpInst::FCMP_ONE: case FCmpInst::FCMP_UNE: o = "!="; break;
+          case FCmpInst::FCMP_OGT: case FCmpInst::FCMP_UGT: o = ">"; break; case FCmpInst::FCMP_OGE: case FCmpInst::FCMP_UGE: o = ">="; break;
+          case FCmpInst::FCMP_OLT: case FCmpInst::FCMP_ULT: o = "<"; break; case FCmpInst::FCMP_OLE: case FCmpInst::FCMP_ULE: o = "<="; break;
+          case FCmpInst::FCMP_ORD: case FCmpInst::FCMP_TRUE: cst = true; cv = true; break; default: cst = true; cv = false; break;
+        }
+        if (cst) b << lhs << "(uint8_t)" << (cv ? 1 : 0) << ";\n"; else b << lhs << "(uint8_t)((int32_t)" << op(0) << " " << o << " (int32_t)" << op(1) << ");\n";
+        break;
+      }
       b << lhs << "(uint8_t)" << fcmpExpr(fc->getPredicate(), op(0), op(1)) << ";\n";
       break;
     }
     case Instruction::Trunc: b << lhs << mask(op(0), t->getIntegerBitWidth()) << ";\n"; break;
     case Instruction::ZExt: b << lhs << "(" << ctype(t) << ")" << op(0) << ";\n"; break;
     case Instruction::SExt: b << lhs << mask(sx(op(0), I.getOperand(0)->getType()->getIntegerBitWidth()), t->getIntegerBitWidth()) << ";\n"; break;
-    case Instruction::FPTrunc: case Instruction::FPExt: b << lhs << "(" << ctype(t) << ")" << op(0) << ";\n"; break;
-    case Instruction::FPToUI: b << lhs << mask("(" + opTy(t->getIntegerBitWidth()) + ")" + op(0), t->getIntegerBitWidth()) << ";\n"; break;
+    case Instruction::FPTrunc: case Instruction::FPExt: if (optDyadic >= 0) die("double arithmetic in dyadic mode: " + I.getFunction()->getName().str()); b << lhs << "(" << ctype(t) << ")" << op(0) << ";\n"; break;
+    case Instruction::FPToUI: if (optDyadic >= 0) { b << lhs << mask("ll_fx_toint(" + op(0) + ")", t->getIntegerBitWidth()) << ";\n"; break; } b << lhs << mask("(" + opTy(t->getIntegerBitWidth()) + ")" + op(0), t->getIntegerBitWidth()) << ";\n"; break;
     case Instruction::FPToSI: {
       unsigned w = t->getIntegerBitWidth();
+      if (optDyadic >= 0) { b << lhs << mask("ll_fx_toint(" + op(0) + ")", w) << ";\n"; break; }
       if (optUB && isStd(w) && w <= 32) ub("LL_FPTOSI_OK" + std::to_string(w) + "(" + op(0) + ")", "float to int conversion out of range");
       b << lhs << mask("(" + sopTy(w) + ")" + op(0), w) << ";\n"; break;
     }
-    case Instruction::UIToFP: b << lhs << "(" << ctype(t) << ")" << op(0) << ";\n"; break;
-    case Instruction::SIToFP: b << lhs << "(" << ctype(t) << ")" << sx(op(0), I.getOperand(0)->getType()->getIntegerBitWidth()) << ";\n"; break;
+    case Instruction::UIToFP: if (optDyadic >= 0) { b << lhs << "ll_fx_fromint((int64_t)" << op(0) << ");\n"; break; } b << lhs << "(" << ctype(t) << ")" << op(0) << ";\n"; break;
+    case Instruction::SIToFP: if (optDyadic >= 0) { b << lhs << "ll_fx_fromint((int64_t)" << sx(op(0), I.getOperand(0)->getType()->getIntegerBitWidth()) << ");\n"; break; } b << lhs << "(" << ctype(t) << ")" << sx(op(0), I.getOperand(0)->getType()->getIntegerBitWidth()) << ";\n"; break;
     case Instruction::PtrToInt: b << lhs << mask("(uintptr_t)" + op(0), t->getIntegerBitWidth()) << ";\n"; break;
     case Instruction::IntToPtr: b << lhs << "(" << ctype(t) << ")(uintptr_t)" << op(0) << ";\n"; break;
     case Instruction::AddrSpaceCast:
@@ -640,6 +667,7 @@ static void emitInst(const Instruction &I) {
       Type *st = I.getOperand(0)->getType();
       if (t->isPointerTy() && st->isPointerTy()) b << lhs << "(" << ctype(t) << ")" << op(0) << ";\n";
       else {
+        if (optDyadic >= 0 && (t->isFloatTy() || st->isFloatTy())) { b << "  LL_FX_UNSUPPORTED(\"float bit pattern used\"); " << F->names[&I] << " = 0;\n"; break; }
         // reinterpret bits
         string tmp = F->names[&I] + "_src";
         F->locals.push_back({ctype(st), tmp});
@@ -814,6 +842,7 @@ int main(int argc, char **argv) {
     if (a == "-o") outPath = argv[++i];
     else if (a == "--ub") optUB = true;
     else if (a == "--frozen") optFrozen = true;
+    else if (a == "--dyadic") optDyadic = atoi(argv[++i]);
     else if (a == "--prelude") prelude = argv[++i];
     else in = a;
   }
@@ -850,7 +879,9 @@ int main(int argc, char **argv) {
   for (const Function &fn : *M) for (const BasicBlock &bb : fn) for (const Instruction &I : bb)
     for (const Use &u : I.operands()) if (auto *cc = dyn_cast<Constant>(u.get())) walkC(cc);
 
-  out << "/* generated by ll2c from " << in << " */\n#include \"" << prelude << "\"\n\n";
+  out << "/* generated by ll2c from " << in << " */\n";
+  if (optDyadic >= 0) out << "#define LL_DYADIC_K " << optDyadic << "\n";
+  out << "#include \"" << prelude << "\"\n\n";
   emitTypeDefs();
   out << "\n";
   // prototypes
